@@ -236,4 +236,10 @@ theorem C12_signal_all (audit deny : Bool) (accs set : List Text) (p : Text) (ha
     (fun a hm => ⟨signal_words.1 a (h a hm), by simpa using h a hm⟩)
     (fun a hm => ⟨signal_words.2 a (h' a hm), by simpa using h' a hm⟩) hp
 
+example : Ref.read T (renderRule (Aa.Parse.signalRule true false [S "receive", S "send"] [S "kill", S "hup"] (S "unconfined")) (padOf []))
+    = some (mkR "signal" { audit := true, deny := false, owner := false }
+        [.l (mergeValues T "signal" "access" [S "receive", S "send"] []), .l (mergeValues T "signal" "set" [S "kill", S "hup"] []),
+         .s (S "unconfined")]) :=
+  C12_signal_all true false _ _ _ (by simp) (by simp) (by decide +kernel) (by decide +kernel) (by decide)
+
 end C12
